@@ -35,10 +35,10 @@ Definition exp_error (has_value : bool) : bool := negb has_value.
 Definition var_subscript (active i : Z) : bool := i =? active.
 Definition var_unchecked_get (active i : Z) : bool := i =? active.
 
-(** div_sat(x, y): y != 0;  chrono::day{d} / month{m}: d < 255 (unsigned) *)
+(** div_sat(x, y): y != 0;  chrono::day{d} / month{m}: d <= 255 (unsigned; fix commit 34b6a34, before it d < 255) *)
 Definition div_sat_guard (y : Z) : bool := negb (y =? 0).
-Definition day_ctor (d : Z) : bool := wrapu 32 d <? 255.
-Definition month_ctor (m : Z) : bool := wrapu 32 m <? 255.
+Definition day_ctor (d : Z) : bool := wrapu 32 d <=? 255.
+Definition month_ctor (m : Z) : bool := wrapu 32 m <=? 255.
 
 (** _bit/{set,reset,flip,test}_bit.hpp on a w-bit unsigned word: pos < UInt(digits), pos is a UInt *)
 Definition bit_guard (w pos : Z) : bool := wrapu w pos <? w.
